@@ -2,6 +2,7 @@ package main
 
 import (
 	"context"
+	"errors"
 	"fmt"
 	"strings"
 	"time"
@@ -48,6 +49,8 @@ const (
 	tQuick = 0 // quick: same-kind (P1), cross-kind (P2), pairs (P3)
 	tCross = 1 // quick: cross-kind only; thorough: everywhere
 	tThor  = 2 // thorough only
+	// tInvalid: an argument the call cannot translate (it records an error); only in the PI blocks
+	tInvalid = 3
 )
 
 type op struct {
@@ -66,6 +69,22 @@ func scopeOrder(d *gorm.DB) *gorm.DB { return d.Order("id").Limit(7) }
 func scopeReturn(d *gorm.DB) *gorm.DB {
 	return d.Clauses(clause.Returning{Columns: []clause.Column{{Name: "id"}}})
 }
+func scopeFail(d *gorm.DB) *gorm.DB {
+	d.AddError(errScope)
+	return d
+}
+
+var errScope = errors.New("c06: scope failed")
+var errTooManyBatches = errors.New("c06: more batches than the table has rows")
+
+// badExpr is a condition that cannot be rendered.
+type badExpr struct{}
+
+func (badExpr) Build(b clause.Builder) {
+	b.WriteString("1 = 1")
+	b.AddError(errors.New("c06: expression cannot be built"))
+}
+
 func group(c *actx) *gorm.DB       { return c.root.Where("ga = ?", 1).Or("gb = ?", 2) }
 func groupOrOnly(c *actx) *gorm.DB { return c.root.Or("gc = ?", 3) }
 func retCols(n ...string) clause.Returning {
@@ -171,6 +190,25 @@ var ops = []op{
 	}},
 	{Label: `Clauses(OnConflict{UpdateAll})`, Kind: "ONCONFLICT", Tier: tThor, Apply: func(db *gorm.DB, c *actx) *gorm.DB { return db.Clauses(clause.OnConflict{UpdateAll: true}) }},
 
+	// invalid arguments: building (or executing) the call records an error — on the new chain only
+	{Label: `Where((*int)(nil))`, Kind: "WHERE", Tier: tInvalid, Apply: func(db *gorm.DB, c *actx) *gorm.DB { return db.Where((*int)(nil)) }},
+	{Label: `Or((*int)(nil))`, Kind: "WHERE", Tier: tInvalid, IsOr: true, Apply: func(db *gorm.DB, c *actx) *gorm.DB { return db.Or((*int)(nil)) }},
+	{Label: `Not((*int)(nil))`, Kind: "WHERE", Tier: tInvalid, Apply: func(db *gorm.DB, c *actx) *gorm.DB { return db.Not((*int)(nil)) }},
+	{Label: `Where("name = ?",w).Not((*int)(nil)) in one call list`, Kind: "WHERE", Tier: tInvalid, Apply: func(db *gorm.DB, c *actx) *gorm.DB {
+		return db.Where("name = ?", "w").Not((*int)(nil))
+	}},
+	{Label: `Having((*int)(nil))`, Kind: "HAVING", Tier: tInvalid, Apply: func(db *gorm.DB, c *actx) *gorm.DB { return db.Having((*int)(nil)) }},
+	{Label: `Select(123)`, Kind: "SELECT", Tier: tInvalid, Apply: func(db *gorm.DB, c *actx) *gorm.DB { return db.Select(123) }},
+	{Label: `Select([]string{"name"},1)`, Kind: "SELECT", Tier: tInvalid, Apply: func(db *gorm.DB, c *actx) *gorm.DB { return db.Select([]string{"name"}, 1) }},
+	{Label: `Distinct(123)`, Kind: "SELECT", Tier: tInvalid, Apply: func(db *gorm.DB, c *actx) *gorm.DB { return db.Distinct(123) }},
+	{Label: `Preload("Nope")`, Kind: "PRELOAD", Tier: tInvalid, Apply: func(db *gorm.DB, c *actx) *gorm.DB { return db.Preload("Nope") }},
+	{Label: `Joins("Nope.Deeper")`, Kind: "JOINS", Tier: tInvalid, Apply: func(db *gorm.DB, c *actx) *gorm.DB { return db.Joins("Nope.Deeper") }},
+	{Label: `Scopes(AddError)`, Kind: "SCOPES", Tier: tInvalid, Apply: func(db *gorm.DB, c *actx) *gorm.DB { return db.Scopes(scopeFail) }},
+	{Label: `Model(123)`, Kind: "MODEL", Tier: tInvalid, IsModel: true, Apply: func(db *gorm.DB, c *actx) *gorm.DB { return db.Model(123) }},
+	{Label: `Clauses(<expression whose Build reports an error>)`, Kind: "WHERE", Tier: tInvalid, Apply: func(db *gorm.DB, c *actx) *gorm.DB {
+		return db.Clauses(badExpr{})
+	}},
+
 	// a reusable handle made in the middle of a chain
 	{Label: `Session(&Session{})`, Kind: "SESSION", Tier: tCross, Apply: func(db *gorm.DB, c *actx) *gorm.DB { return db.Session(&gorm.Session{}) }},
 	{Label: `WithContext(ctx)`, Kind: "SESSION", Tier: tThor, Apply: func(db *gorm.DB, c *actx) *gorm.DB {
@@ -273,7 +311,14 @@ const (
 	fScan
 	fFirstOrInit
 	fSave
-	fRows      // SQLite only (DryRun does not support Rows)
+	fRows // SQLite only (DryRun does not support Rows)
+	fRow  // SQLite only
+	fFindInBatches
+	fFirstOrCreate   // DryRun only (it writes)
+	fCreateInBatches // DryRun only (it writes)
+	fTransaction     // SQLite only: Transaction(func(tx) { tx.Find })
+	fAssocFind
+	fAssocCount
 	fHandle    // the chain is not finished but turned into a reusable handle with Session(&Session{})
 	fCountFind // real only: Count and then Find on the same chain object (pagination idiom)
 	fModelFind // internal: the Find half of fCountFind replayed alone
@@ -365,6 +410,61 @@ var finishers = []finisher{
 		obs(tx)
 		return nil
 	}},
+	fRow: {Label: "Row()", Real: true, Run: func(db *gorm.DB, hm bool, obs func(*gorm.DB)) *gorm.DB {
+		row := withModel(db, hm).Row()
+		var err error
+		if row != nil {
+			var x interface{}
+			err = row.Scan(&x) // releases the connection; the column-count error is part of the observation
+		}
+		obs(&gorm.DB{Config: db.Config, Error: err, Statement: &gorm.Statement{}})
+		return nil
+	}},
+	fFindInBatches: {Label: "FindInBatches(&[]User{},2,fn)", Dry: true, Real: true, Run: func(db *gorm.DB, hm bool, obs func(*gorm.DB)) *gorm.DB {
+		var us []User
+		tx := db.FindInBatches(&us, 2, func(btx *gorm.DB, batch int) error {
+			if batch >= 6 {
+				// e.g. an Or(...) condition defeats the primary-key cursor and the loop would never end
+				return errTooManyBatches
+			}
+			return nil
+		})
+		obs(tx)
+		return tx
+	}},
+	fFirstOrCreate: {Label: `FirstOrCreate(&User{},User{Name:"foc"})`, Dry: true, Run: func(db *gorm.DB, hm bool, obs func(*gorm.DB)) *gorm.DB {
+		tx := db.FirstOrCreate(&User{}, User{Name: "foc"})
+		obs(tx)
+		return tx
+	}},
+	fCreateInBatches: {Label: "CreateInBatches(&[]User{a,b,c},2)", Dry: true, Run: func(db *gorm.DB, hm bool, obs func(*gorm.DB)) *gorm.DB {
+		tx := db.CreateInBatches(&[]User{{Name: "a"}, {Name: "b"}, {Name: "c"}}, 2)
+		obs(tx)
+		return tx
+	}},
+	fTransaction: {Label: "Transaction(func(tx){tx.Find(&[]User{})})", Real: true, Run: func(db *gorm.DB, hm bool, obs func(*gorm.DB)) *gorm.DB {
+		err := db.Transaction(func(tx *gorm.DB) error { return tx.Find(&[]User{}).Error })
+		obs(&gorm.DB{Config: db.Config, Error: err, Statement: &gorm.Statement{}})
+		return nil
+	}},
+	fAssocFind: {Label: `Association("Company").Find(&[]Company{})`, Dry: true, Real: true, Run: func(db *gorm.DB, hm bool, obs func(*gorm.DB)) *gorm.DB {
+		if !hm {
+			db = db.Model(&User{ID: 1, CompanyID: 1})
+		}
+		var cs []Company
+		err := db.Association("Company").Find(&cs)
+		obs(&gorm.DB{Config: db.Config, Error: err, Statement: &gorm.Statement{}})
+		return nil
+	}},
+	fAssocCount: {Label: `Association("Company").Count()`, Dry: true, Real: true, Run: func(db *gorm.DB, hm bool, obs func(*gorm.DB)) *gorm.DB {
+		if !hm {
+			db = db.Model(&User{ID: 1, CompanyID: 1})
+		}
+		a := db.Association("Company")
+		n := a.Count()
+		obs(&gorm.DB{Config: db.Config, Error: a.Error, RowsAffected: n, Statement: &gorm.Statement{}})
+		return nil
+	}},
 	fHandle: {Label: "Session(&Session{}) [becomes a handle]", Dry: true, Real: true},
 	fCountFind: {Label: "Count(&n) then Find(&[]User{}) on the same chain", Real: true, Run: func(db *gorm.DB, hm bool, obs func(*gorm.DB)) *gorm.DB {
 		var n int64
@@ -403,8 +503,8 @@ func init() {
 }
 
 // every finisher of the alphabet, for direct execution on a live reusable handle
-var dryHandleFins = []int{fFind, fFirst, fCount, fUpdate, fDelete, fCreate, fTake, fLast, fPluck, fScan, fFirstOrInit, fSave}
-var realHandleFins = []int{fFind, fFirst, fCount, fTake, fLast, fPluck, fScan, fFirstOrInit, fRows}
+var dryHandleFins = []int{fFind, fFirst, fCount, fUpdate, fDelete, fCreate, fTake, fLast, fPluck, fScan, fFirstOrInit, fSave, fFindInBatches, fFirstOrCreate, fCreateInBatches, fAssocFind, fAssocCount}
+var realHandleFins = []int{fFind, fFirst, fCount, fTake, fLast, fPluck, fScan, fFirstOrInit, fRows, fRow, fFindInBatches, fTransaction, fAssocFind, fAssocCount}
 
 // probe finishers executed directly on reusable handles
 var dryProbes = []int{fFind, fUpdate, fCreate}
